@@ -87,6 +87,27 @@ pub fn text_space(r: &mut Run, name: &str, alpha: &[Sym], n: usize, gamma: &Gamm
     })
 }
 
+/// Sequences of whole words: deeper in *words* (and so in lines per paragraph) than the symbol
+/// spaces, which spend their depth on separators.  The text is the words joined by single
+/// spaces (the final space is dropped); a small configuration set keeps the space enumerable.
+pub fn word_seq_space(r: &mut Run, name: &str, mask: u32, algs: Vec<Alg>) -> Result<(), MachineryError> {
+    let alpha = [WD1, WD2, WD3, WDH, WD5];
+    let n = r.tier.pick(6, 9);
+    let g = Gamma { seps: seps(), algs, spls: vec![Spl::Hyphen], bws: vec![true, false], indents: vec![("", ""), ("> ", " ")], crlf: vec![false] };
+    let bases = g.bases();
+    let space = Space { name: name.to_string(), menu: menu(&alpha), max_len: n, desc: format!("<= {} whole words from the menu joined by single spaces (one paragraph, up to {} lines); {}; widths 1..=9", n, n, g.describe()) };
+    r.space(space, |seq, cx| {
+        let mut text = build(seq, &alpha);
+        text.pop();
+        cx.set_input(&text);
+        for base in &bases {
+            for w in 1..=9usize {
+                check_wrap(&text, &Cfg { width: w, ..*base }, mask, cx);
+            }
+        }
+    })
+}
+
 /// "Every character in a fixed context": the scalar values enumerated by the all-characters
 /// passes.  Quick = complete sub-ranges chosen to contain every script class the code
 /// distinguishes (controls, Latin, combining marks, general punctuation incl. zero-width and
